@@ -712,3 +712,130 @@ def gen_core_case(rng, hard=False, joins=True, nquads=None, nrows=None):
     if hard and rng.random() < 0.15:
         cfg['printable'] = True
     return {'cfg': cfg, 'sources': sources, 'doc': doc}
+
+
+# ---------------------------------------------------------------- YARRRML spelling (C09)
+_YARRRML_DEFAULT_PREFIXES = ('rml:', 'fno:', 'xsd:', 'rdfs:')
+
+
+def _y_value_ok(m, allow_lit=False):
+    v = m['v']
+    if any(v.startswith(p) for p in _YARRRML_DEFAULT_PREFIXES) or v == 'a' or v == '':
+        return False
+    if m['k'] == 'const':
+        ck = m.get('ck', 'iri')
+        if ck == 'iri':
+            return v.startswith('http') or v.startswith('ftp')
+        if ck == 'lit':
+            return allow_lit and not (v.startswith('http') or v.startswith('ftp')) and '$(' not in v
+        return False
+    if m['k'] == 'templ':
+        if '\\' in v or '$(' in v or '{' not in v:
+            return False
+        if v.startswith('{') and v.count('{') == 1:
+            return False            # YARRRML reads a template that starts with its only reference as a reference
+        import re as _re
+        return all(')' not in n and '$' not in n for n in _re.findall(r'\{([^}]*)\}', v))
+    if m['k'] == 'ref':
+        return ')' not in v and '$' not in v and '{' not in v
+    return False
+
+
+def yarrrml_ok(case):
+    """the abstract mapping lies in the fragment the YARRRML translator of /repo supports and the renderer below writes"""
+    if any(s.get('kind', 'csv') != 'csv' for s in case['sources']) or case.get('file_path_option'):
+        return False
+    for t in case['doc']:
+        if t.get('nonasserted') or t.get('sjoins') or not _y_value_ok(t['subj']) or t['subj'].get('tt') not in ('', None, 'iri', 'bnode'):
+            return False
+        if any(not (c.startswith('http')) for c in t.get('classes', [])):
+            return False
+        for g in t.get('sgraphs', []):
+            if not _y_value_ok(g) or g.get('tt'):
+                return False
+        for p in t.get('poms', []):
+            for pm in p['preds']:
+                if pm['k'] not in ('const', 'templ') or not _y_value_ok(pm) or pm.get('tt'):
+                    return False
+            for g in p.get('graphs', []):
+                if not _y_value_ok(g) or g.get('tt'):
+                    return False
+            for o in p['objs']:
+                m = o['m']
+                if m['k'] == 'parent':
+                    if len(o.get('joins', [])) > 1 or any(')' in a or ')' in b for a, b in o.get('joins', [])):
+                        return False
+                    continue
+                if not _y_value_ok(m, allow_lit=True):
+                    return False
+                extras = sum(1 for x in (o.get('lang'), o.get('dt'), m.get('tt')) if x)
+                if extras > 1:
+                    return False
+                for ld in (o.get('lang'), o.get('dt')):
+                    if ld and (ld['k'] != 'const' or any(ld['v'].startswith(p) for p in _YARRRML_DEFAULT_PREFIXES)):
+                        return False
+                if o.get('dt') and not o['dt']['v'].startswith('http'):
+                    return False
+    return True
+
+
+def _y_text(m):
+    if m['k'] == 'ref':
+        return '$(%s)' % m['v']
+    if m['k'] == 'templ':
+        import re as _re
+        return _re.sub(r'\{([^}]*)\}', lambda mo: '$(%s)' % mo.group(1), m['v'])
+    return m['v']
+
+
+_Y_TYPE = {'iri': 'iri', 'lit': 'literal', 'bnode': 'blanknode'}
+
+
+def render_yarrrml(case, rng=None):
+    """YARRRML text of the abstract mapping (fragment of yarrrml_ok); sources are the CSV files materialise_files writes"""
+    import io
+    from ruamel.yaml import YAML
+    keys = {t['id']: 'tm%d' % i for i, t in enumerate(case['doc'])}
+    files = {s['key']: 'm_%d.csv' % i for i, s in enumerate(case['sources'])}
+    mappings = {}
+    for t in case['doc']:
+        mv = {'sources': [['%s~csv' % files[t['src']]]]}
+        subj = {'value': _y_text(t['subj'])}
+        if t['subj'].get('tt'):
+            subj['type'] = _Y_TYPE[t['subj']['tt']]
+        mv['s'] = subj
+        if t.get('sgraphs'):
+            mv['graphs'] = [_y_text(g) for g in t['sgraphs']]
+        po = []
+        for c in t.get('classes', []):
+            po.append({'p': 'a', 'o': {'value': c, 'type': 'iri'}})
+        for p in t.get('poms', []):
+            objs = []
+            for o in p['objs']:
+                m = o['m']
+                if m['k'] == 'parent':
+                    od = {'mapping': keys[m['v']]}
+                    if o.get('joins'):
+                        a, b = o['joins'][0]
+                        od['condition'] = {'function': 'equal', 'parameters': [['str1', '$(%s)' % a], ['str2', '$(%s)' % b]]}
+                else:
+                    od = {'value': _y_text(m)}
+                    if o.get('lang'):
+                        od['language'] = o['lang']['v']
+                    elif o.get('dt'):
+                        od['datatype'] = o['dt']['v']
+                    elif m.get('tt'):
+                        od['type'] = _Y_TYPE[m['tt']]
+                objs.append(od)
+            d = {'p': [_y_text(pm) for pm in p['preds']], 'o': objs}
+            if p.get('graphs'):
+                d['graphs'] = [_y_text(g) for g in p['graphs']]
+            po.append(d)
+        if po:
+            mv['po'] = po
+        mappings[keys[t['id']]] = mv
+    buf = io.StringIO()
+    y = YAML(typ='safe', pure=True)
+    y.default_flow_style = False
+    y.dump({'mappings': mappings}, buf)
+    return buf.getvalue()
